@@ -1,10 +1,24 @@
 (* Properties/C01.v — pinned statements only. *)
 From Boreal Require Import Base.Prelude Base.ListX Base.Bytes Base.Sorted Model.Literals Model.AcScan
-  Spec.TextSpec Proofs.AcScanInsert Proofs.TextFullword.
+  Spec.TextSpec Model.TextCase Proofs.AcScanInsert Proofs.TextFullword Proofs.TextAtoms Proofs.TextLiterals
+  Proofs.TextMain Proofs.TextPinned.
 
 (* The full statement of the property for the model (DESIGN §7 C01). *)
 Definition C01_text_matches_statement : Prop :=
-  forall d m prm, wf_decl d = true -> bytes_ok m = true ->
+  forall d m prm, wf_decl d = true ->
+    nlen (spec_offsets d m) <= p_max_nb_matches prm ->     (* below the limit; the limit contract is C14 *)
+    let r := model_scan_text prm d m in
+    map sm_off r = spec_offsets d m                        (* nothing missing, nothing spurious, ascending, one per offset *)
+    /\ Forall (fun x => exists e, In e (enc_set d) /\ occ d m (sm_off x) e = true
+                         /\ sm_len x = nlen (e_bytes e) /\ sm_key x = e_key e) r
+    /\ Forall (fun x => sm_base x = 0
+                        /\ sm_data x = slice (sm_off x) (sm_off x + N.min (sm_len x) (p_match_max_length prm)) m) r.
+
+(* Proved: the full statement for every declaration whose base64 literals pass the per-declaration
+   validation `b64_okb` (a decidable function of the declaration alone, `true` by definition when the
+   string has no base64 modifier, and evaluated on every generated case by the check). *)
+Theorem C01_text_matches_partial :
+  forall d m prm, wf_decl d = true -> b64_okb d = true ->
     nlen (spec_offsets d m) <= p_max_nb_matches prm ->
     let r := model_scan_text prm d m in
     map sm_off r = spec_offsets d m
@@ -12,6 +26,35 @@ Definition C01_text_matches_statement : Prop :=
                          /\ sm_len x = nlen (e_bytes e) /\ sm_key x = e_key e) r
     /\ Forall (fun x => sm_base x = 0
                         /\ sm_data x = slice (sm_off x) (sm_off x + N.min (sm_len x) (p_match_max_length prm)) m) r.
+Proof. exact text_matches_main. Qed.
+
+(* xor strings: the key of an occurring encoding lies in the declared range and un-xoring the matched
+   bytes with it gives the declared text (widened when the occurrence is wide) *)
+Theorem C01_unxor :
+  forall d m o e, t_xor d <> None -> t_nocase d = false -> In e (enc_set d) -> occ d m o e = true ->
+    xor_bytes (e_key e) (slice o (o + nlen (e_bytes e)) m) = (if e_wide e then widen (t_text d) else t_text d)
+    /\ (exists lo hi, t_xor d = Some (lo, hi) /\ lo <= e_key e <= hi).
+Proof. exact unxor_text. Qed.
+
+(* literal set = encoding set, with the key and the ascii/wide kind recovered from the index *)
+Theorem C01_literal_is_encoding :
+  forall d i lit, wf_decl d = true -> b64_okb d = true ->
+    nnth_opt i (new_bytes_literals d) = Some lit -> exists e, In e (enc_set d) /\ link d i e.
+Proof. exact lit_to_enc. Qed.
+
+Theorem C01_encoding_is_literal :
+  forall d e, wf_decl d = true -> b64_okb d = true -> In e (enc_set d) -> exists i, link d i e.
+Proof. exact enc_to_lit. Qed.
+
+(* per-literal completeness: the picked atom is a factor of the literal, so every occurrence of a
+   literal is among the candidates confirmed for its variable *)
+Theorem C01_occurrence_is_candidate :
+  forall var rg k lit o,
+    nth_error (mt_literals var) k = Some lit -> lit <> [] ->
+    o + nlen lit <= nlen (rg_mem rg) ->
+    lower_bytes (slice o (o + nlen lit) (rg_mem rg)) = lower_bytes lit ->
+    In (N.of_nat k, o, o + nlen lit) (own_cands var rg).
+Proof. exact occurrence_is_candidate. Qed.
 
 Theorem C01_fullword_rule :
   forall m s e t, s <= e -> e <= nlen m ->
@@ -27,10 +70,56 @@ Theorem C01_insert_one_per_offset :
     insert_match v x = v.
 Proof. exact insert_match_dup. Qed.
 
-Theorem C01_insert_keeps : forall v x y, In y v -> In y (insert_match v x).
-Proof. exact insert_match_keeps. Qed.
+(* the pinned tree (before F1, F2, F3) violated the property: witnesses of DESIGN 9.1, 9.2, 9.4 *)
+Theorem C01_xor_key_pinned_refuted :
+  map sm_key (model_scan_text_with insert_match get_xor_key_pinned acscan_new prm0 w91_d w91_m) = [16]
+  /\ map sm_key (model_scan_text prm0 w91_d w91_m) = [144]
+  /\ map sm_key (model_scan_text_pinned prm0 w91_d w91_m) = [16].
+Proof. exact xor_key_pinned_refuted. Qed.
 
+Theorem C01_duplicate_offset_pinned_refuted :
+  map sm_off (model_scan_text_pinned prm0 w92_d w92_m) = [0; 0]
+  /\ spec_offsets w92_d w92_m = [0]
+  /\ map sm_off (model_scan_text prm0 w92_d w92_m) = [0].
+Proof. exact duplicate_offset_pinned_refuted. Qed.
+
+Theorem C01_literal_dropped_pinned_refuted :
+  map sm_off (model_scan_text_pinned prm0 w94_d w94_m) = []
+  /\ spec_offsets w94_d w94_m = [2]
+  /\ map sm_off (model_scan_text prm0 w94_d w94_m) = [2].
+Proof. exact literal_dropped_pinned_refuted. Qed.
+
+(* non-vacuity: concrete declarations of each shape meet the hypotheses (and have matches) *)
+Example C01_hyp_xor_wide :
+  wf_decl w91_d = true /\ b64_okb w91_d = true
+  /\ (nlen (spec_offsets w91_d w91_m) <=? p_max_nb_matches prm0) = true
+  /\ spec_offsets w91_d w91_m = [0].
+Proof. vm_compute. repeat split. Qed.
+
+Definition ex_b64_d : tdecl :=
+  {| t_text := [97;98;99;100;101;102;103]; t_ascii := true; t_wide := true; t_nocase := false; t_fullword := false;
+     t_xor := None; t_b64 := Some {| b_ascii := true; b_wide := true; b_alpha := None |} |}.
+Example C01_hyp_base64 :
+  wf_decl ex_b64_d = true /\ b64_okb ex_b64_d = true
+  /\ spec_offsets ex_b64_d [1; 89;87;74;106;90;71;86;109;90; 2; 70;0;105;0;89;0;50;0;82;0;108;0;90;0;109;0] = [1; 11].
+Proof. vm_compute. repeat split. Qed.
+
+Definition ex_fw_d : tdecl :=
+  {| t_text := [97;98]; t_ascii := true; t_wide := true; t_nocase := true; t_fullword := true;
+     t_xor := None; t_b64 := None |}.
+Example C01_hyp_fullword_nocase :
+  wf_decl ex_fw_d = true /\ b64_okb ex_fw_d = true
+  /\ spec_offsets ex_fw_d [65;98;32;120;97;98;32;97;0;66;0;46] = [0; 7].
+Proof. vm_compute. repeat split. Qed.
+
+Print Assumptions C01_text_matches_partial.
+Print Assumptions C01_unxor.
+Print Assumptions C01_literal_is_encoding.
+Print Assumptions C01_encoding_is_literal.
+Print Assumptions C01_occurrence_is_candidate.
 Print Assumptions C01_fullword_rule.
 Print Assumptions C01_insert_sorted.
 Print Assumptions C01_insert_one_per_offset.
-Print Assumptions C01_insert_keeps.
+Print Assumptions C01_xor_key_pinned_refuted.
+Print Assumptions C01_duplicate_offset_pinned_refuted.
+Print Assumptions C01_literal_dropped_pinned_refuted.
